@@ -54,7 +54,9 @@ def cases(draw, tier):
             "batch": draw(st.integers(2, 3)), "mixed": draw(st.booleans()),
             "vscale_exp": draw(st.sampled_from([0, 0, 0, 0, -20, -12, -30, 6, 12])),
             # tol = 0 (never stop early): only with generic start vectors, whose Krylov space is all of C^n
-            "tol_zero": draw(st.integers(1, 5)) == 1, "pbar": draw(st.integers(1, 8)) == 1}
+            "tol_zero": draw(st.integers(1, 5)) == 1, "pbar": draw(st.integers(1, 8)) == 1,
+            # round 6: the factorisation is judged after ANOTHER factorisation of the same size has been computed
+            "then_another": draw(st.integers(1, 3)) == 1}
 
 
 def strategy(tier):
@@ -271,6 +273,15 @@ def check(case, out):
         if res is None:
             return
         Q, T, info = res
+        if case.get("then_another"):
+            # the returned Q and T are values: a later factorisation (same operator, same size and cap, another start
+            # vector) and a Ritz computation must leave them as they are
+            out.label("then_another_call")
+            v2 = (np.roll(v, 1) * 1.5 + 0.25).astype(v.dtype)
+            call(lambda: lanczos(A, v2.copy(), max_iters=mi, tol=tol))
+            call(lambda: lanczos_eigs(A, v2.copy(), max_iters=mi, tol=tol))
+            if out.failures:
+                return
         # with two clusters of width 1e-6 the Krylov vectors beyond the second are determined only to ~1e-6/eps:
         # the span predicate is then restricted to j <= 2 (orthonormality, projection and relation are still judged)
         cols = verify(out, sub, site, M, v, Q, T, mi, tol, span_upto=2 if case["spec"] == "clustered" else min(8, g_loose))
